@@ -149,6 +149,86 @@ def run(ctx):
                               {"steps": [[mode, req]]})
             # an Err at commit time is acceptable: nothing was promised to be stored
     ctx.count("entries", n)
+    same_shape_rewrites(ctx, rng, modes)
+
+
+def same_shape_rewrites(ctx, rng, modes):
+    """A key is written, looked up, deleted in bulk (remove_fully, clear, or its bucket file cleaned away from outside)
+    and written again by the SAME process with a value of exactly the same shape - same lengths of data, metadata text,
+    raw metadata and time digits, so that the new bucket has the byte length of the old one. Every field read back
+    must be the second writer's. (Lengths, names and modification times that happen to coincide are all that a
+    process-wide memo of parsed buckets could key on.)"""
+    import string
+    rounds = 4 if ctx.quick else 40
+    for mode in modes:
+        for removal in ("remove_fully", "clear", "external-unlink"):
+            for rnd in range(rounds):
+                cache = ctx.new_cache()
+                key = rng.choice(["k", "kéy 中", gen.rand_unicode_key(rng)])
+                L, R = rng.choice([0, 3, 100]), rng.choice([0, 1, 40])
+                ep = rng.choice(["writer_opts", "index_insert"])
+
+                def value():
+                    data = rng.randbytes(L) if L else b""
+                    o = {"time": str(rng.randrange(10 ** 12, 10 ** 13)),
+                         "metadata": {"s": "".join(rng.choice(string.ascii_letters) for _ in range(12)), "n": rng.randrange(1000, 10000)}}
+                    if R:
+                        o["raw_metadata"] = rng.randbytes(R).hex()
+                    if ep == "index_insert":
+                        o["sri"] = ref.sri("sha256", data)
+                        o["size"] = rng.randrange(100, 1000)
+                        return data, o, {"op": "index_insert", "cache": cache, "key": key, "opts": o}
+                    return data, o, {"op": "writer", "cache": cache, "key": key, "opts": o, "chunks": [ctx.data(data)]}
+
+                d1, o1, q1 = value()
+                d2, o2, q2 = value()
+                look = rng.choice(["metadata", "index_find"])
+                if removal == "external-unlink":
+                    rm = {"op": "rmtree", "path": ref.bucket_path(cache, key)}
+                elif removal == "clear":
+                    rm = {"op": "clear", "cache": cache}
+                else:
+                    rm = {"op": "remove_fully", "cache": cache, "key": key}
+                # list_sync is the one listing API: in the async modes it is called, synchronously, in the same process
+                ls = {"op": "list", "cache": cache, "mode": "sync"}
+                script = [q1, {"op": look, "cache": cache, "key": key}, ls, rm, q2,
+                          {"op": look, "cache": cache, "key": key}, ls,
+                          {"op": "metadata" if look == "index_find" else "index_find", "cache": cache, "key": key}]
+                rs = ctx.batch(mode, script)
+                ctx.count("same_shape_rewrites")
+                ctx.case(distinct_key=("same-shape", mode, removal, ep, look, L, R))
+                det = {"steps": [[mode, q] for q in script], "mode": mode}
+                if not all(ev.is_ok(r) for r in rs):
+                    bad = next(i for i, r in enumerate(rs) if not ev.is_ok(r))
+                    if ev.is_panic(rs[bad]) or bad in (0, 4):
+                        ctx.violation(f"same-shape|{mode}|{removal}|step-{script[bad]['op']}-{ev.variant(rs[bad])}",
+                                      f"same-shape rewrite after {removal} in {mode}: {script[bad]['op']} gave {ev.brief(rs[bad])}", det)
+                    else:
+                        ctx.inconc(f"same-shape rewrite: step {script[bad]['op']} failed in {mode}: {ev.brief(rs[bad])}")
+                    continue
+
+                def exp(d, o):
+                    return {"key": key, "integrity": o.get("sri") or ref.sri("sha256", d), "time": int(o["time"]),
+                            "size": o.get("size", len(d)), "metadata": o["metadata"],
+                            "raw_metadata": bytes.fromhex(o["raw_metadata"]) if "raw_metadata" in o else None}
+
+                for idx, (d, o, when) in ((1, (d1, o1, "first write")), (5, (d2, o2, "second write")), (7, (d2, o2, "second write"))):
+                    df = entry_diffs(rs[idx]["ok"]["entry"], exp(d, o))
+                    if df:
+                        ctx.violation(f"same-shape|{mode}|{removal}|{script[idx]['op']}|{sigclass(df[0])}",
+                                      f"{ep} in {mode}, {look}, {removal}, then a same-shape {ep} of other values: "
+                                      f"{script[idx]['op']} after the {when}: {df[0]}", dict(det, diffs=df))
+                        break
+                else:
+                    for idx, (d, o) in ((2, (d1, o1)), (6, (d2, o2))):
+                        items = [e for e in rs[idx]["ok"]["items"] if "err" not in e and e.get("key") == key]
+                        df = entry_diffs(items[0] if len(items) == 1 else None, exp(d, o))
+                        if df:
+                            ctx.violation(f"same-shape|{mode}|{removal}|list|{sigclass(df[0])}",
+                                          f"{ep} in {mode}, {look}, {removal}, then a same-shape {ep}: the listing "
+                                          f"({len(items)} entries for the key) says: {df[0]}", dict(det, diffs=df))
+                            break
+                ctx.rm(cache)
 
 
 def expected_entry(c):
